@@ -302,7 +302,7 @@ def ob_choi_to_kraus(din, dout, kind, tol=1e-9):
 
     def assume(i):
         # the PSD verdict must be unambiguous (the property speaks about maps that satisfy or violate a definition by more
-        # than the tolerance): no eigenvalue in the window [-1e-7, 0) where is_positive_semidefinite (threshold 1e-8)
+        # than the tolerance): no eigenvalue in the window [-1e-7, -tol) where is_positive_semidefinite (threshold 1e-8)
         # and the eigenvalue filter (tol) disagree about the sign
         if kind != "hermitian":
             # svd branch: J misses Hermiticity by a margin (entries bounded so that the relative tolerance stays below it)
@@ -315,10 +315,26 @@ def ob_choi_to_kraus(din, dout, kind, tol=1e-9):
                     d = J[a, bb] - J[bb, a].conjugate()
                     diffs += [d.real > 0.01, d.real < -0.01, d.imag > 0.01, d.imag < -0.01]
             return bounded + [Or(*diffs)]
+        # (eigenvalues in [-tol, 0) - negative numerical zeros, dropped by the filter - are part of the claim)
         w = np.linalg.eigvalsh(i["J"])
-        return [(x >= 0) | (x <= -1e-7) for x in w]
+        return [(x >= -tol) | (x <= -1e-7) for x in w]
+    def witness():
+        # Hermitian, indefinite AND rank-deficient: J = sum_k +-|v_k><v_k| with fewer terms than n, so that LAPACK returns
+        # numerical zeros of either sign (-1e-17 ...) next to eigenvalues of both signs - the solver's models with an
+        # eigenvalue in [-tol, 0) are realised numerically by these
+        if kind != "hermitian" or n < 3:
+            return []
+        out = []
+        for sd in range(8):
+            rng = np.random.default_rng(100 + sd)
+            J = np.zeros((n, n), dtype=complex)
+            for k, sg in enumerate([1, -1] if n < 6 else [1, -1, 1]):
+                v = (rng.integers(-4, 5, size=(n, 1)) + 1j * rng.integers(-4, 5, size=(n, 1))) / 4.0
+                J = J + sg * (v @ v.conj().T)
+            out.append({"J": J})
+        return out
     return Obligation("choi_to_kraus.reproduces_choi_matrix_modulo_dropped_terms", cfg, build, call, oracle, assume=assume,
-                      max_paths=800, tv=False, abs_fork=True, weight=50, contracts=("eigh", "svd"))
+                      max_paths=800, tv=False, abs_fork=True, weight=50, contracts=("eigh", "svd"), witness=witness)
 
 
 def obligations(tier):
